@@ -1,4 +1,5 @@
 """C02 — add() feedback (status, value) is computed against the pre-call archive."""
+import archdispatch
 import archlib
 
 ID = "C02"
@@ -38,17 +39,20 @@ def gen(profile, **kw):
 
 
 def run_case(case):
-    return archlib.run_case(case, PROPS)
+    return archdispatch.run_case(case, PROPS)
 
 
 def run(ctx):
-    budget = 9 if ctx.quick else 90
+    budget = 7 if ctx.quick else 80
     for name, prof, kw, n in [("mixed", "mixed", {}, ctx.n(120, 10000)),
                               ("ties", "ties", {}, ctx.n(100, 8000)),
                               ("cma", "cma", {"cma": True}, ctx.n(160, 12000)),
                               ("cma-ties", "ties", {"cma": True}, ctx.n(80, 6000)),
                               ("collide", "collide", {}, ctx.n(100, 6000))]:
         ctx.explore(name, gen(prof, **kw), run_case, n, nontrivial=archlib.nontrivial_c01, time_budget=budget)
+    # remapping insertions of SlidingBoundariesArchive and ProximityArchive with local competition
+    ctx.explore("sliding-remaps", archdispatch.gen_sliding, run_case, ctx.n(80, 6000), time_budget=budget)
+    ctx.explore("proximity-lc", archdispatch.gen_prox(lc=True), run_case, ctx.n(80, 6000), time_budget=budget)
 
 
 def replay(ctx, case):
